@@ -18,12 +18,17 @@
 (* needed.                                                                               *)
 EXTENDS Lattice
 
-GNorm(g) == CHOOSE n \in 1..64 : n * n = Norm2(g)          \* |g| (integer by assumption)
-ValidSetup(s) ==
-    /\ \E n \in 1..64 : n * n = Norm2(s.g)
+GNorm(g) == CHOOSE n \in 1..8 : n * n = Norm2(g)           \* |g| (integer by assumption, <= 8)
+ValidGeometry(s) ==
+    /\ \E n \in 1..8 : n * n = Norm2(s.g)
     /\ Cross(s.g, s.b1) # Zero3                             \* b1 not parallel to gravity
     /\ s.b2 # Zero3
     /\ s.q[1] >= 0 /\ s.q[2] > 0
+ValidSetup(s) ==
+    /\ ValidGeometry(s)
+    \* the raised beam must not vanish (detector straight below the sample with delta = L2):
+    \* no angle is defined there
+    /\ VAdd(VScale(s.q[2] * GNorm(s.g), s.b2), VScale(s.q[1] * Norm2(s.b2), VNeg(s.g))) # Zero3
 
 (* ---- basis, as integer numerators:  e_y = EyN/ng, e_z = ZpN/|ZpN|, e_x = ExN/|ExN|  *)
 EyN(s) == VNeg(s.g)
@@ -70,7 +75,7 @@ OptimisedClass(s) ==
     LET v  == RaisedN(s)
         z2 == Z2(s, v)
         r2 == RatAdd(RatAdd(X2(s, v), Y2(s, v)), z2)
-    IN  <<Sgn(ZNum(s, v)), RatDiv(z2, r2)>>
+    IN  IF r2[1] = 0 THEN ClassUndefined ELSE <<Sgn(ZNum(s, v)), RatDiv(z2, r2)>>
 
 (* ---- reflectometry variant *)
 Perpendicular(s) == Dot(s.g, s.b1) = 0
